@@ -794,6 +794,12 @@ def gen_c18(seed, tier):
                  r.pick(["", "", "spid", r.pick(HOSTILE_FIELD)]),
                  "cb%04d-%s" % (mk, r.pick(["x"] + HOSTILE_FIELD).replace(" ", "_"))]
             evs.append({"k": k, "u": u, "t": t})
+            if r.chance(0.25):
+                # ... and another user's identifier whose text differs from it only by surrounding white space
+                # (SP-provided / migrated identifiers are arbitrary strings)
+                t2 = list(t)
+                t2[4] = r.pick([" %s", "%s ", " %s ", "\t%s", "%s\n"]) % t[4]
+                evs.append({"k": k, "u": r.pick([x for x in users if x != u] or users), "t": t2})
         elif k in ("find_local", "remove_remote"):
             evs.append({"k": k, "h": r.randrange(1000)})
         elif k == "find_nameid":
